@@ -119,6 +119,8 @@ def run_async_case(driver, seed, part, i, res, forced=None):
     windows = {}
 
     gaps = [[r.choice([0, 0, 0.06, 0.25]) for _ in cmds] for cmds in plans]
+    burst = [driver in ("tridonic", "hasseb") and forced is None and len(cmds) >= 2 and all(c_.devicetype == 0 for c_ in cmds)
+             and r.random() < 0.25 for cmds in plans]
     foreign = []
     if driver != "hasseb" and r.random() < (0.6 if forced is None else 0.0):
         # traffic of another master while the driver is idle or busy: query + answer pairs from addresses 48..63
@@ -126,8 +128,23 @@ def run_async_case(driver, seed, part, i, res, forced=None):
             v = ((48 + j) * 2 + 1) * 256 + r.choice([0xA0, 0x90, 0x99])
             foreign.append((r.choice([0.01, 0.08, 0.15, 0.3, 0.45]), 16, v, r.choice([("ok", 200 + j), ("ok", 200 + j), None, ("collision", 1)])))
 
+    async def one_in_burst(c, k, cmd):
+        t_call = sim.world.now
+        try:
+            results[(c, k)] = ("ok", await sim.driver.send(cmd, in_transaction=True))
+        except Exception as e:
+            results[(c, k)] = ("exc", e)
+        windows[(c, k)] = (t_call, sim.world.now)
+
     async def caller(c, cmds, start):
         await asyncio.sleep(start)
+        if burst[c]:
+            # a caller that owns the transaction and hands the driver its commands all at once: each still gets the answer to
+            # its own command (the Tridonic gateway takes two commands at a time, the hasseb driver queues them)
+            res.hit("bursts_inside_a_transaction")
+            async with sim.driver.transaction_lock:
+                await asyncio.gather(*[one_in_burst(c, k, cmd) for k, cmd in enumerate(cmds)])
+            return
         for k, cmd in enumerate(cmds):
             if gaps[c][k]:
                 await asyncio.sleep(gaps[c][k])
